@@ -949,3 +949,171 @@ Proof.
   apply existsb_exists in H1. destruct H1 as (k & Hin & Hk). apply Nat.eqb_eq in Hk. subst k.
   repeat split; auto; lia.
 Qed.
+
+(* ---------------------------------------------------------------------- *)
+(* fork(): the child after uv_loop_fork, parent and child side by side      *)
+(* ---------------------------------------------------------------------- *)
+Lemma reachable_inv_gen s0 s : Inv s0 -> reachable s0 s -> Inv s.
+Proof.
+  intros I Hr. induction Hr; auto.
+  eapply astep_inv; eauto. apply step_astep with (t := t); auto.
+Qed.
+
+Lemma reachable_trans s0 s1 s2 : reachable s0 s1 -> reachable s1 s2 -> reachable s0 s2.
+Proof. intros H1 H2. induction H2; auto. eapply reach_step; eauto. Qed.
+
+Lemma existsb_eqb_in k l : existsb (Nat.eqb k) l = true <-> In k l.
+Proof.
+  rewrite existsb_exists. split.
+  - intros (x & Hin & He). apply Nat.eqb_eq in He. subst; auto.
+  - intros Hin. exists k. split; auto. apply Nat.eqb_refl.
+Qed.
+
+Lemma fork_inv s ls beh sc :
+  Inv s -> l_pc (lp s) = LTop ->
+  (forall k, ~ In k (lst s) -> busy (hs s k) = 0) ->
+  Inv (async_fork s ls beh sc).
+Proof.
+  intros I Hpc Hb0. unfold Inv, async_fork, view.
+  cbn [hs snd lp lst efd l_pc l_queue l_incb l_closing l_closed].
+  assert (Hq : l_queue (lp s) = []).
+  { apply (i_q0 _ I). cbn. unfold aoutside. cbn. rewrite Hpc. reflexivity. }
+  assert (Hopen_in : forall k, hst (hs s k) = Open -> In k (lst s)).
+  { intros k Ho. destruct (i_olink _ I k Ho) as [H|H]; auto. cbn in H. rewrite Hq in H. destruct H. }
+  assert (Hin_open : forall k, In k (lst s) -> hst (hs s k) = Open).
+  { intros k Hin. destruct (i_ql _ I k (or_introl Hin)) as [H|[H|H]]; auto; cbn in H; congruence. }
+  constructor; cbn [a_hs a_snd a_lst a_efd a_pc a_q a_incb a_cl]; unfold aopn, aspin;
+    cbn [a_hs a_snd a_lst a_efd a_pc a_q a_incb a_cl].
+  - lia.
+  - intros h. rewrite cnt_idle by reflexivity.
+    destruct (existsb (Nat.eqb h) (lst s)) eqn:E; cbn; auto.
+    apply Hb0. intros Hin. apply existsb_eqb_in in Hin. congruence.
+  - intros h Hno. destruct (existsb (Nat.eqb h) (lst s)) eqn:E; cbn in *.
+    + exfalso. apply Hno. apply Hin_open. apply existsb_eqb_in. exact E.
+    + apply (i_n2 _ I h). exact Hno.
+  - intros h Ho. left. apply Hopen_in.
+    destruct (existsb (Nat.eqb h) (lst s)); cbn in Ho; exact Ho.
+  - reflexivity.
+  - intros h [Hin|[]]. left. pose proof (Hin_open h Hin) as Ho.
+    destruct (existsb (Nat.eqb h) (lst s)); cbn; exact Ho.
+  - discriminate.
+  - intros h [|]; discriminate.
+  - intros h Hu. rewrite cnt_idle by reflexivity.
+    assert (Hu' : unl (hs s h) = true) by (destruct (existsb (Nat.eqb h) (lst s)); cbn in Hu; exact Hu).
+    destruct (i_unl _ I h Hu') as [Hno _]. split; [|reflexivity].
+    intros Ho. apply Hno. unfold aopn. cbn.
+    destruct (existsb (Nat.eqb h) (lst s)); cbn in Ho; exact Ho.
+  - intros h. destruct (existsb (Nat.eqb h) (lst s)); cbn; lia.
+  - intros h Hin. pose proof (i_cl _ I h Hin) as Hu. cbn in Hu.
+    destruct (existsb (Nat.eqb h) (lst s)); cbn; exact Hu.
+  - intros h Ho Hp. exfalso.
+    destruct (existsb (Nat.eqb h) (lst s)) eqn:E; cbn in *; [discriminate|].
+    pose proof (Hopen_in h Ho) as Hin. apply existsb_eqb_in in Hin. congruence.
+  - intros h _ Hlt. exfalso. destruct (existsb (Nat.eqb h) (lst s)); cbn in Hlt; lia.
+  - intros h. rewrite cnt_idle by reflexivity.
+    destruct (existsb (Nat.eqb h) (lst s)) eqn:E; cbn.
+    + unfold is_open; cbn. destruct (hst (hs s h)); cbn; lia.
+    + unfold is_open; cbn. destruct (hst (hs s h)) eqn:Eh; cbn; try lia.
+      exfalso. pose proof (Hopen_in h Eh) as Hin. apply existsb_eqb_in in Hin. congruence.
+Qed.
+
+(* the processes' own copies of the counter agree with their channels, which differ *)
+Definition synced (y : sys) : Prop :=
+  efd (par y) = ctr y (ch_par y) /\ efd (chi y) = ctr y (ch_chi y) /\ ch_par y <> ch_chi y.
+
+Lemma with_efd_id s : with_efd s (efd s) = s.
+Proof. destruct s; reflexivity. Qed.
+
+Lemma sys_step_split y c t y' : synced y -> sys_step y c t = Some y' ->
+  synced y' /\
+  (if c then step (chi y) t = Some (chi y') /\ par y' = par y /\ ctr y' (ch_par y) = ctr y (ch_par y)
+   else step (par y) t = Some (par y') /\ chi y' = chi y /\ ctr y' (ch_chi y) = ctr y (ch_chi y)).
+Proof.
+  intros (Hp & Hc & Hne) Hst. unfold sys_step in Hst. destruct c.
+  - rewrite <- Hc, with_efd_id in Hst. destruct (step (chi y) t) as [s'|] eqn:E; [|discriminate].
+    injection Hst as <-. unfold synced. cbn. repeat split; auto.
+    + rewrite Hp. destruct (Nat.eqb_spec (ch_par y) (ch_chi y)); [contradiction|reflexivity].
+    + rewrite Nat.eqb_refl. reflexivity.
+    + destruct (Nat.eqb_spec (ch_par y) (ch_chi y)); [contradiction|reflexivity].
+  - rewrite <- Hp, with_efd_id in Hst. destruct (step (par y) t) as [s'|] eqn:E; [|discriminate].
+    injection Hst as <-. unfold synced. cbn. repeat split; auto.
+    + rewrite Nat.eqb_refl. reflexivity.
+    + rewrite Hc. destruct (Nat.eqb_spec (ch_chi y) (ch_par y)); [congruence|reflexivity].
+    + destruct (Nat.eqb_spec (ch_chi y) (ch_par y)); [congruence|reflexivity].
+Qed.
+
+Lemma sys_run_split sched : forall y y', synced y -> sys_run y sched = Some y' ->
+  synced y' /\ reachable (par y) (par y') /\ reachable (chi y) (chi y').
+Proof.
+  induction sched as [|[c t] r IH]; intros y y' Hs Hrun; simpl in Hrun.
+  - inversion Hrun; subst. split; [auto|split; constructor].
+  - destruct (sys_step y c t) as [y1|] eqn:E; [|discriminate].
+    destruct (sys_step_split y c t y1 Hs E) as [Hs1 Hc].
+    destruct (IH y1 y' Hs1 Hrun) as (Hs' & Hrp & Hrc). split; auto.
+    destruct c.
+    + destruct Hc as (Hst & Hpar & _). rewrite Hpar in Hrp. split; auto.
+      eapply reachable_trans; [|exact Hrc]. eapply reach_step; [constructor|exact Hst].
+    + destruct Hc as (Hst & Hchi & _). rewrite Hchi in Hrc. split; auto.
+      eapply reachable_trans; [|exact Hrp]. eapply reach_step; [constructor|exact Hst].
+Qed.
+
+Lemma fork_sys_synced s ls beh sc : synced (fork_sys true s ls beh sc).
+Proof. unfold synced, fork_sys. cbn. repeat split; auto. Qed.
+
+(* Everything proved for a single loop holds for the child (and the parent) under every
+   interleaving of the two processes' steps. *)
+Lemma fork_both_inv s ls beh sc sched y' :
+  Inv s -> l_pc (lp s) = LTop -> (forall k, ~ In k (lst s) -> busy (hs s k) = 0) ->
+  sys_run (fork_sys true s ls beh sc) sched = Some y' ->
+  Inv (par y') /\ Inv (chi y') /\ synced y'.
+Proof.
+  intros I Hpc Hb Hrun.
+  destruct (sys_run_split sched _ _ (fork_sys_synced s ls beh sc) Hrun) as (Hs & Hrp & Hrc).
+  cbn in Hrp, Hrc. split; [|split; [|exact Hs]].
+  - eapply reachable_inv_gen; [exact I|exact Hrp].
+  - eapply reachable_inv_gen; [|exact Hrc]. apply fork_inv; auto.
+Qed.
+
+(* the variant in which the child keeps the parent's eventfd: the parent's loop consumes
+   the child's wake-up *)
+Definition f_par : state := init 1 0 [OpNowait] nobeh [].
+Definition f_sched : list (bool * nat) :=
+  [(true, 1); (true, 1); (true, 1); (true, 1); (true, 1); (true, 1);   (* a send in the child *)
+   (false, 0); (false, 0); (false, 0); (false, 0); (false, 0);         (* the parent runs its loop *)
+   (true, 0)]%nat.                                                    (* the child enters uv_run *)
+
+Definition loaded_child (y : sys) : state := with_efd (chi y) (ctr y (ch_chi y)).
+
+Lemma shared_channel_loses_wakeup :
+  exists y, sys_run (fork_sys false f_par [OpRun true] nobeh [[0%nat]]) f_sched = Some y /\
+            quiescent (loaded_child y) = true /\ hst (hs (chi y) 0%nat) = Open /\
+            seen (hs (chi y) 0%nat) = 0 /\ published (hs (chi y) 0%nat) = 1.
+Proof.
+  assert (H : match sys_run (fork_sys false f_par [OpRun true] nobeh [[0%nat]]) f_sched with
+              | Some y => quiescent (loaded_child y) && is_open (hs (chi y) 0%nat) &&
+                          (seen (hs (chi y) 0%nat) =? 0) && (published (hs (chi y) 0%nat) =? 1)
+              | None => false end = true) by (vm_compute; reflexivity).
+  destruct (sys_run _ f_sched) as [y|]; [|discriminate]. exists y. split; [reflexivity|].
+  rewrite !andb_true_iff in H. destruct H as [[[H1 H2] H3] H4].
+  unfold is_open in H2. destruct (hst (hs (chi y) 0%nat)); [|discriminate]. repeat split; auto; lia.
+Qed.
+
+(* with a fresh channel the parent's loop finds nothing to drain (its run takes two steps
+   instead of five) and the child's loop is not blocked *)
+Definition f_sched_fresh : list (bool * nat) :=
+  [(true, 1); (true, 1); (true, 1); (true, 1); (true, 1); (true, 1);
+   (false, 0); (false, 0); (true, 0)]%nat.
+
+Lemma fresh_channel_same_scenario :
+  exists y, sys_run (fork_sys true f_par [OpRun true] nobeh [[0%nat]]) f_sched_fresh = Some y /\
+            quiescent (loaded_child y) = false /\ 0 < ctr y (ch_chi y) /\ l_pc (lp (par y)) = LTop.
+Proof.
+  assert (H : match sys_run (fork_sys true f_par [OpRun true] nobeh [[0%nat]]) f_sched_fresh with
+              | Some y => negb (quiescent (loaded_child y)) && (0 <? ctr y (ch_chi y)) &&
+                          match l_pc (lp (par y)) with LTop => true | _ => false end
+              | None => false end = true) by (vm_compute; reflexivity).
+  destruct (sys_run _ f_sched_fresh) as [y|]; [|discriminate]. exists y. split; [reflexivity|].
+  rewrite !andb_true_iff in H. destruct H as [[H1 H2] H3].
+  split; [destruct (quiescent (loaded_child y)); auto; discriminate|]. split; [lia|].
+  destruct (l_pc (lp (par y))); try discriminate; reflexivity.
+Qed.
